@@ -26,3 +26,48 @@ Theorem C07_ignored_untouched_by_stages :
   forall ks l l', chain ks l l' ->
   Forall2 (fun p q => f_ignored (snd p) = true -> fst q = fst p /\ f_ignored (snd q) = true) l l'.
 Proof. exact chain_ignored_untouched. Qed.
+
+From PasfmtVerif Require Import Model.Toggle Proofs.ToggleProofs.
+
+(* the toggle grammar: opener (double slash, paren-star or brace), optional ASCII whitespace, `pasfmt` in any case, at least one whitespace, then exactly the word on / off (any case) ended by a non-alphanumeric byte *)
+Theorem C07_toggle_grammar :
+  forall (c : bytes) (t : toggle), parse_toggle c = Some t <-> toggle_comment_shape c t.
+Proof. exact parse_toggle_iff. Qed.
+
+(* recognition is case-insensitive *)
+Theorem C07_toggle_case_insensitive :
+  forall c1 c2 : bytes, lower c1 = lower c2 -> parse_toggle c1 = parse_toggle c2.
+Proof. exact parse_toggle_case_insensitive. Qed.
+
+(* a token is marked iff formatting is off after it was processed, or it is itself a toggle comment *)
+Theorem C07_marks_spec :
+  forall (b : bool) (l : list token) (i : nat) (tok : token),
+  nth_error l i = Some tok ->
+  nth_error (toggle_marks b l) i = Some (state_at b l i || is_toggle_tok tok).
+Proof. exact toggle_marks_spec. Qed.
+
+(* from an `off` comment to the next `on` comment (inclusive) every token is marked; the token after it is not *)
+Theorem C07_marks_region :
+  forall (b : bool) (l : list token) (i : nat) (ti : token) (j : nat) (tj : token),
+  (i < j)%nat ->
+  nth_error l i = Some ti ->
+  tok_toggle ti = Some TOff ->
+  nth_error l j = Some tj ->
+  tok_toggle tj = Some TOn ->
+  (forall (k : nat) (tk : token),
+   (i < k < j)%nat -> nth_error l k = Some tk -> tok_toggle tk = None) ->
+  (forall k : nat, (i <= k <= j)%nat -> nth_error (toggle_marks b l) k = Some true) /\
+  (forall tn : token,
+   nth_error l (S j) = Some tn ->
+   tok_toggle tn = None -> nth_error (toggle_marks b l) (S j) = Some false).
+Proof. exact toggle_marks_region_on. Qed.
+
+(* only comments toggle: directives and string literals containing the words do nothing *)
+Theorem C07_non_comment_never_toggles :
+  forall tok : token,
+  is_comment (t_ty tok) = false ->
+  tok_toggle tok = None /\
+  (forall ign : bool, next_state ign tok = ign) /\
+  (forall (ign : bool) (r : list token),
+   toggle_marks ign (tok :: r) = ign :: toggle_marks ign r).
+Proof. exact toggle_non_comment_ignored. Qed.
